@@ -210,8 +210,9 @@ def run(tier, seed):
     if tier == 'quick':
         jobs += [seq_job(1, s, True) for s in OPERAND_SETS] + [seq_job(2, s, True) for s in OPERAND_SETS[:2]] + [seq_job(3, OPERAND_SETS[0], False, ['+', '*', '==', '<', '&&', '||', '..', '-'])]
     else:
-        jobs += [seq_job(1, s, True) for s in OPERAND_SETS] + [seq_job(2, s, True) for s in OPERAND_SETS] + [seq_job(3, OPERAND_SETS[0], True), seq_job(3, OPERAND_SETS[1], False), seq_job(4, OPERAND_SETS[0], False)]
-    c.bounds = {'operators': 'all 16 binary-operator tokens at every position (exhaustive)', 'sequence_length': 'k <= 2 operators over all 16 tokens, k = 3 over 8 tokens covering every tier (quick); k <= 3 over all 16, k = 4 (thorough)', 'operands': '4 operand sets: literals, negative literals, names, calls, index, range-index, .name, ->name, parenthesised, chained postfix'}
+        sub8 = ['+', '*', '==', '<', '&&', '||', '..', '-']
+        jobs += [seq_job(1, s, True) for s in OPERAND_SETS] + [seq_job(2, s, True) for s in OPERAND_SETS] + [seq_job(3, OPERAND_SETS[0], True), seq_job(3, OPERAND_SETS[1], False, sub8 + ['%', '===', '>=', '/']), seq_job(4, OPERAND_SETS[0], False, sub8)]
+    c.bounds = {'operators': 'all 16 binary-operator tokens at every position (exhaustive)', 'sequence_length': 'k <= 2 operators over all 16 tokens, k = 3 over 8 tokens covering every tier (quick); k <= 3 over all 16 (one operand set) / 12 tokens, k = 4 over 8 tokens (thorough)', 'operands': '4 operand sets: literals, negative literals, names, calls, index, range-index, .name, ->name, parenthesised, chained postfix'}
     c.outside = ['longer operator sequences', 'random deep trees', 'operands beyond the listed forms']
     c.run_jobs('operator-sequences', jobs, par_jobs=len(jobs), par_paths=max(2, 16 // max(1, len(jobs) // 2)), timeout=3000)
     return c.finish()
